@@ -17,16 +17,17 @@ import (
 
 // stepCtx is what an oracle sees for one step.
 type stepCtx struct {
-	sc    *Scenario
-	w     *World
-	op    *Op
-	idx   int
-	pre   []Obs    // observation of every variable before the step
-	preD  []uint64 // memory digest of every variable before the step
-	res   *Result
-	post  []Obs
-	shRes *Result // shadow result (C10)
-	shObs Obs
+	sc          *Scenario
+	w           *World
+	op          *Op
+	idx         int
+	pre         []Obs    // observation of every variable before the step
+	preD        []uint64 // memory digest of every variable before the step
+	res         *Result
+	post        []Obs
+	shRes       *Result // shadow result (C10)
+	firedBefore int
+	shObs       Obs
 }
 
 type histOracle interface {
@@ -375,6 +376,8 @@ func newOracle(prop string) histOracle {
 		return &oracleC09{cnt: map[string]int{}}
 	case "C10":
 		return &oracleC10{cnt: map[string]int{}}
+	case "C19":
+		return &oracleC19{cnt: map[string]int{}}
 	}
 	panic("no oracle for " + prop)
 }
@@ -406,6 +409,7 @@ func runHist(sc *Scenario) *Outcome {
 				c.preD[k] = decimal.VerifDigest(0, v)
 			}
 			or.before(c)
+			c.firedBefore = verifrt.PanicsFired()
 			verifrt.Resume()
 			results[i] = execOp(w, op)
 			if verifrt.Aborted() {
